@@ -245,7 +245,13 @@ class Program:
                 key = q + ('#setter' if fi.is_setter else '')
                 self.functions[key] = fi
         else:
-            self.functions[q] = fi
+            if q in self.functions and self.functions[q].node is not node:
+                # a second nested def of the same name (one per branch): addressable by its line
+                q2 = f"{q}@{node.lineno}"
+                fi.qualname = q2
+                self.functions[q2] = fi
+            else:
+                self.functions[q] = fi
         # nested defs
         for sub in ast.walk(node):
             if sub is node:
